@@ -1,48 +1,53 @@
 (* C19, part "expr": the expression layer of the ANML codec inside the model (Model/AnmlExpr.v).
-   State of the proofs: the round trip is PROVED for the atomic part of the fragment (constants, objects, parameters,
-   bound variables, 0-ary fluents), through the whole precedence descent and with the fuel bound; the full statements
-   are kept as [..._goal] (what is missing: the induction over the compound constructors, for which the level lemmas
-   of Proofs/AnmlExpr_proofs.v -- P_xxx, up_xxx, imp_of_xxx, chain_parses -- are the building blocks).  The concrete
-   instance [C19_expr_roundtrip_example] (every constructor of the fragment) is checked by computation. *)
+   print  = ConverterToANMLString.walk on the printable fragment anml_ok (anml_writer.py);
+   parse  = the pyparsing precedence tables of anml_grammar.py fused with ANMLReader._parse_expression, run with the
+            fuel  fuel_of ts = 20 * length ts + 20  (out-of-fuel is a distinguished result that gives None);
+   norm   = what the reader rebuilds (left-nested binary and/or/+/*, "-5" as Times(-1,5), "(n/d)" as a division,
+            Iff as two implications, Not(Not x) collapsed), the identity elsewhere. *)
 From Coq Require Import List ZArith NArith QArith Qcanon Bool.
 Import ListNotations.
 Require Import UPV.Core.Expr UPV.Core.Eval UPV.Model.AnmlExpr UPV.Proofs.AnmlExpr_proofs.
 
-(* FULL statements (not yet proved in general). *)
-Definition C19_expr_roundtrip_goal : Prop :=
+(* Hypothesis names_ok W R arity (record in Proofs/AnmlExpr_proofs.v): the writer's names_mapping W is injective
+   across and within the kinds of named things (fresh identifiers: _get_anml_name) and the reader's tables R are
+   those built from the declarations written with these identifiers: every identifier resolves to the thing it was
+   written for (types_map, parameters, problem.fluent with its arity, problem.object), a fluent / object / parameter
+   identifier is never a variable identifier, a fluent or object identifier is not a parameter, an object identifier
+   is not a fluent.  [bs] = the variables bound around the expression (forall-effects), [rscope W bs] the reader's
+   `variables` argument for them. *)
+Theorem C19_expr_roundtrip :
   forall W R arity, names_ok W R arity ->
   forall e bs ts, print W R arity bs e = Some ts -> parse R (rscope W bs) ts = Some (norm e).
-Definition C19_expr_norm_eval_goal : Prop :=
-  forall R arity sc e bs I, anml_ok R arity bs e = true -> nodneg e = true -> eval sc (norm e) I = eval sc e I.
-
-(* Hypothesis names_ok W R arity: the writer's names_mapping W is injective across and within the kinds of named
-   things (fresh identifiers, _get_anml_name) and the reader's tables R are those built from the declarations
-   written with these identifiers (each identifier resolves to the thing it was written for, with its arity).
-   The theorem excludes out-of-fuel: [parse] runs [go] with fuel_of ts = 20 * length ts + 20. *)
-Theorem C19_expr_roundtrip_atomic_partial :
-  forall W R arity, names_ok W R arity ->
-  forall e bs ts, atomic e = true -> print W R arity bs e = Some ts -> parse R (rscope W bs) ts = Some (norm e).
 Proof.
-  intros W R arity HN e bs ts Ha Hp. unfold print in Hp.
+  intros W R arity HN e bs ts Hp. unfold print in Hp.
   destruct (anml_ok R arity bs e) eqn:E; [|discriminate]. injection Hp as <-.
-  exact (parse_print_atomic W R arity HN e bs Ha E).
+  exact (parse_print W R arity HN e bs E).
 Qed.
-Print Assumptions C19_expr_roundtrip_atomic_partial.
+Print Assumptions C19_expr_roundtrip.
 
-(* A concrete instance with every constructor of the fragment: identifiers 4k (fluents), 4k+1 (parameters),
-   4k+2 (objects), 4k+3 (variables), k (types). *)
-Definition exW : wnames :=
-  {| nmF := fun f => (4 * f)%N; nmP := fun p => (4 * p + 1)%N; nmO := fun o => (4 * o + 2)%N;
-     nmV := fun v => (4 * v + 3)%N; nmT := fun t => t |}.
-Definition ex_arity (f : N) : nat := match f with 0%N => 0 | 1%N => 2 | _ => 0 end.
-Definition exR : rtables :=
-  {| tyOf := fun s => Some s;
-     parOf := fun s => if (s mod 4 =? 1)%N then Some (s / 4)%N else None;
-     fluOf := fun s => if (s mod 4 =? 0)%N then Some ((s / 4)%N, ex_arity (s / 4)%N) else None;
-     objOf := fun s => if (s mod 4 =? 2)%N then Some (s / 4)%N else None;
-     varOf := fun s => (s / 4)%N;
-     fbool := fun f => (f =? 0)%N || (f =? 1)%N;
-     pbool := fun _ => false |}.
+(* The normal form has the value of the original on every interpretation, in both quantifier modes.
+   nodneg e: no NOT directly under a NOT - an invariant of every FNode built through ExpressionManager.Not; without
+   it the statement is false for the ill-typed Not(Not(3)) (original undefined, re-read 3). *)
+Theorem C19_expr_norm_eval :
+  forall R arity sc e bs I, anml_ok R arity bs e = true -> nodneg e = true -> eval sc (norm e) I = eval sc e I.
+Proof. intros R arity sc e bs I. exact (norm_eval R arity e sc bs I). Qed.
+Print Assumptions C19_expr_norm_eval.
+
+(* both together: what is read back from the printed text means the same as the original *)
+Theorem C19_expr_roundtrip_meaning :
+  forall W R arity, names_ok W R arity ->
+  forall e bs ts, print W R arity bs e = Some ts -> nodneg e = true ->
+  exists e', parse R (rscope W bs) ts = Some e' /\ forall sc I, eval sc e' I = eval sc e I.
+Proof.
+  intros W R arity HN e bs ts Hp Hn. exists (norm e). split; [exact (C19_expr_roundtrip W R arity HN e bs ts Hp)|].
+  intros sc I. unfold print in Hp. destruct (anml_ok R arity bs e) eqn:E; [|discriminate].
+  exact (C19_expr_norm_eval R arity sc e bs I E Hn).
+Qed.
+Print Assumptions C19_expr_roundtrip_meaning.
+
+(* Non-vacuity: the naming exW / tables exR (identifiers 4k fluents, 4k+1 parameters, 4k+2 objects, 4k+3 variables)
+   satisfy names_ok, and an expression with EVERY constructor of the fragment is printable, is not its own normal
+   form, and is read back as its normal form (by the theorem and, independently, by computation). *)
 Definition ex_e : expr :=
   EAnd [ EOr [EFluent 0 []; ENot (EFluent 1 [EObj 5; EParam 2]); EBool false];
          EImplies (EBool true) (EIff (EFluent 0 []) (EFluent 0 []));
@@ -50,11 +55,19 @@ Definition ex_e : expr :=
          ELe (EPlus [EFluent 2 []; EInt 3; EInt (-4)]) (ETimes [EReal (Q2Qc (Qmake (-7) 2)); EFluent 3 []; EInt 2]);
          ELt (EMinus (EFluent 2 []) (EInt (-1))) (EDiv (EFluent 3 []) (EReal (Q2Qc (Qmake 5 4))));
          EEquals (EParam 1) (EObj 0) ].
-Definition ex_parsed : option expr := parse exR [] (pr exW ex_e).
-Example C19_expr_roundtrip_example :
-  anml_ok exR ex_arity [] ex_e = true /\ ex_parsed = Some (norm ex_e) /\ nodneg ex_e = true.
-Proof. vm_compute. repeat split; reflexivity. Qed.
-Example C19_expr_roundtrip_atomic_partial_nonvacuous :
-  print exW exR ex_arity [(9%N, 7%N)] (EVar 9 7) = Some [TName 39%N]
-  /\ parse exR (rscope exW [(9%N, 7%N)]) [TName 39%N] = Some (EVar 9 7).
-Proof. vm_compute. split; reflexivity. Qed.
+Definition ex_toks : list token := pr exW ex_e.
+Definition ex_parsed : option expr := parse exR [] ex_toks.
+Definition ex_same : bool := expr_eqb (norm ex_e) ex_e.
+Example C19_expr_roundtrip_nonvacuous :
+  names_ok exW exR ex_arity
+  /\ print exW exR ex_arity [] ex_e = Some ex_toks
+  /\ nodneg ex_e = true
+  /\ ex_same = false
+  /\ ex_parsed = Some (norm ex_e)
+  /\ exists e', parse exR (rscope exW []) ex_toks = Some e' /\ forall sc I, eval sc e' I = eval sc ex_e I.
+Proof.
+  split; [exact ex_names_ok|]. split; [vm_compute; reflexivity|]. split; [vm_compute; reflexivity|].
+  split; [vm_compute; reflexivity|]. split; [vm_compute; reflexivity|].
+  apply (C19_expr_roundtrip_meaning exW exR ex_arity ex_names_ok ex_e []); vm_compute; reflexivity.
+Qed.
+Print Assumptions C19_expr_roundtrip_nonvacuous.
